@@ -797,3 +797,131 @@ package collection
 //@   ensures  calls(klru.onEvict) - old(calls(klru.onEvict)) == old(len(klru.elements)) + ite(old(inDom(klru.elements, key)), 0, 1) - len(klru.elements)
 //@   modifies mapof(klru.elements), listOf, listLen, elemOf, listFront, calls(klru.onEvict)
 //@   allocates
+
+// --- lru as an interface (what Cache relies on). Same clauses as keyLru's contracts above, in the interface vocabulary,
+// PLUS the effect of the eviction callback on the owner's data map (keyLru calls onEvict = Cache.onEvict once per key that
+// leaves it — proved above — and Cache.onEvict deletes exactly that key — proved below; the composition of the two is this
+// trusted interface contract). lruLim[l] == 0: the empty lru, which does nothing.
+//@ extern func (l lru) add
+//@   ensures implies(lruLim[l] <= 0, lruHas[l] == old(lruHas[l]) && lruN[l] == old(lruN[l]))
+//@   ensures implies(lruLim[l] > 0, lruHas[l][key] && lruN[l] <= lruLim[l] && forall(s.(string), implies(s != key && lruHas[l][s], old(lruHas[l][s]))))
+//@   ensures implies(lruLim[l] > 0 && old(lruHas[l][key]), lruHas[l] == old(lruHas[l]) && lruN[l] == old(lruN[l]))
+//@   ensures forall(s.(string), inDom(lruOwner[l].data, s) == (old(inDom(lruOwner[l].data, s)) && !(lruLim[l] > 0 && old(lruHas[l][s]) && !lruHas[l][s])))
+//@   ensures forall(s.(string), implies(inDom(lruOwner[l].data, s), lruOwner[l].data[s] == old(lruOwner[l].data[s])))
+//@   ensures len(lruOwner[l].data) - lruN[l] == old(len(lruOwner[l].data)) - (old(lruN[l]) + ite(lruLim[l] > 0 && !old(lruHas[l][key]), 1, 0))
+//@   modifies lruHas[l], lruN[l], mapof(lruOwner[l].data)
+//@ extern func (l lru) remove
+//@   ensures implies(lruLim[l] <= 0, lruHas[l] == old(lruHas[l]) && lruN[l] == old(lruN[l]))
+//@   ensures implies(lruLim[l] > 0, !lruHas[l][key] && lruN[l] == old(lruN[l]) - ite(old(lruHas[l][key]), 1, 0) && forall(s.(string), implies(s != key, lruHas[l][s] == old(lruHas[l][s]))))
+//@   ensures forall(s.(string), inDom(lruOwner[l].data, s) == (old(inDom(lruOwner[l].data, s)) && !(lruLim[l] > 0 && s == key && old(lruHas[l][key]))))
+//@   ensures forall(s.(string), implies(inDom(lruOwner[l].data, s), lruOwner[l].data[s] == old(lruOwner[l].data[s])))
+//@   ensures len(lruOwner[l].data) == old(len(lruOwner[l].data)) - ite(lruLim[l] > 0 && old(lruHas[l][key]) && old(inDom(lruOwner[l].data, key)), 1, 0)
+//@   modifies lruHas[l], lruN[l], mapof(lruOwner[l].data)
+
+// the timing wheel's channel front-end as seen by the cache: requests are handed to the wheel goroutine (C12 decides what the
+// wheel does with them); nothing the cache's contracts talk about changes
+//@ ghost var twSets int
+//@ ghost var twMoves int
+//@ ghost var twRemoves int
+//@ func (tw *TimingWheel) SetTimer
+//@   property C16
+//@   trusted
+//@   ensures twSets == old(twSets) + 1
+//@   modifies twSets
+//@ func (tw *TimingWheel) MoveTimer
+//@   property C16
+//@   trusted
+//@   ensures twMoves == old(twMoves) + 1
+//@   modifies twMoves
+//@ func (tw *TimingWheel) RemoveTimer
+//@   property C16
+//@   trusted
+//@   ensures twRemoves == old(twRemoves) + 1
+//@   modifies twRemoves
+
+// Cache: under c.lock the data map and the lru agree on the key set, and a limited cache never holds more than its limit.
+//@ spec cacheSync(c *Cache) bool = c.data != nil && c.lruCache != nil && implies(lruLim[c.lruCache] > 0, lruOwner[c.lruCache] == c &&
+//@      len(c.data) == lruN[c.lruCache] && lruN[c.lruCache] <= lruLim[c.lruCache] && forall(s.(string), inDom(c.data, s) == lruHas[c.lruCache][s]))
+//@ lockinv (c *Cache) lock: cacheSync(c)
+//@ guarded_by data
+
+//@ func (c *Cache) Del
+//@   property C16
+//@   flag old_at_lock
+//@   requires c != nil && c.timingWheel != nil
+//@   ensures  !inDom(c.data, key) && forall(s.(string), implies(s != key, inDom(c.data, s) == old(inDom(c.data, s)) && implies(inDom(c.data, s), c.data[s] == old(c.data[s]))))
+//@   ensures  twRemoves == old(twRemoves) + 1
+
+//@ func (c *Cache) SetWithExpire
+//@   property C16
+//@   flag old_at_lock
+//@   float real
+//@   requires c != nil && c.timingWheel != nil && expire >= 0 && mathx.UnstableOK(c.unstableExpiry)
+//@   ghost at after Unlock#0: had = ok
+//@   call MoveTimer#0: assert had && arg_key == key
+//@   call SetTimer#0: assert !had && arg_key == key && arg_value == value
+//@   ensures  inDom(c.data, key) && c.data[key] == value
+//@   ensures  implies(lruLim[c.lruCache] > 0, len(c.data) <= lruLim[c.lruCache])
+//@   ensures  implies(lruLim[c.lruCache] <= 0, forall(s.(string), implies(s != key, inDom(c.data, s) == old(inDom(c.data, s)) && implies(inDom(c.data, s), c.data[s] == old(c.data[s])))))
+//@   ensures  forall(s.(string), implies(s != key && inDom(c.data, s), old(inDom(c.data, s)) && c.data[s] == old(c.data[s])))
+//@   ensures  twSets + twMoves == old(twSets + twMoves) + 1
+
+//@ func (c *Cache) Set
+//@   property C16
+//@   float real
+//@   requires c != nil && c.timingWheel != nil && c.expire >= 0 && mathx.UnstableOK(c.unstableExpiry)
+//@   call SetWithExpire#0: assert arg_key == key && arg_value == value && arg_expire == c.expire
+
+//@ func (c *Cache) doGet
+//@   property C16
+//@   flag old_at_lock
+//@   results value, ok
+//@   requires c != nil
+//@   ensures  ok == old(inDom(c.data, key)) && implies(ok, value == old(c.data[key]))
+//@   ensures  forall(s.(string), inDom(c.data, s) == old(inDom(c.data, s)) && implies(inDom(c.data, s), c.data[s] == old(c.data[s])))
+
+//@ func (c *Cache) onEvict
+//@   property C16
+//@   requires held(c.lock)
+//@   requires c != nil && c.data != nil && c.timingWheel != nil
+//@   ensures  !inDom(c.data, key) && forall(s.(string), implies(s != key, inDom(c.data, s) == old(inDom(c.data, s)) && implies(inDom(c.data, s), c.data[s] == old(c.data[s]))))
+//@   ensures  len(c.data) == old(len(c.data)) - ite(old(inDom(c.data, key)), 1, 0)
+//@   modifies mapof(c.data), twRemoves
+
+//@ func (c *Cache) size
+//@   property C16
+//@   flag old_at_lock
+//@   requires c != nil
+//@   ensures  result == len(c.data)
+//@   modifies nothing
+
+// Get: the answer is doGet's (hit/miss statistics are dropped)
+//@ func (c *Cache) Get
+//@   property C16
+//@   results value, ok
+//@   requires c != nil
+//@   ghost at after doGet#0: gv = ret0
+//@   ghost at after doGet#0: gok = ret1
+//@   ensures  value == gv && ok == gok
+
+// WithLimit: a positive limit installs a fresh key lru of that limit whose eviction callback is this cache's onEvict
+//@ func WithLimit closure 0
+//@   property C16
+//@   requires cache != nil
+//@   requires forall(e.(any), implies(elemOf[e] != nil, allocated(elemOf[e])))
+//@   ghost at after newKeyLru#0: lruLim[ret] = limit
+//@   ghost at after newKeyLru#0: lruN[ret] = 0
+//@   ghost at after newKeyLru#0: lruHas[ret] = nokeys()
+//@   ghost at after newKeyLru#0: lruOwner[ret] = cache
+//@   ensures  implies(limit > 0, lruLim[cache.lruCache] == limit && lruN[cache.lruCache] == 0 && lruOwner[cache.lruCache] == cache && forall(s.(string), !lruHas[cache.lruCache][s]))
+//@   ensures  implies(limit <= 0, cache.lruCache == old(cache.lruCache))
+//@   allocates
+
+// NewCache: contract-only (trusted): the options are opaque callbacks; assumed to leave the cache in a state satisfying
+// cacheSync (the two options of the package do: WithName does not touch it, WithLimit is proved above)
+//@ func NewCache
+//@   property C16
+//@   trusted
+//@   results c, err
+//@   ensures implies(err == nil, c != nil && c.timingWheel != nil && c.expire == expire)
+//@   allocates
